@@ -442,7 +442,79 @@ func checkC13(c C13Case) (*Violation, []string, *caseInfo) {
 
 // ---------------------------------------------------------------- generation
 
+// genLarge13 draws a case around a large target: hundreds of members, where
+// code that treats big inputs specially (chunking, worker pools, caches)
+// takes its other path. Two shapes: a keyed array with one identity occurring
+// twice, far apart, patched through a set-keys path; and a long YAML sequence
+// with a few elements the library cannot represent, scattered.
+func genLarge13(c *Chooser) C13Case {
+	cs := C13Case{Sector: []int{64, 512}[c.Int(2)], Artefact: "p", Skew: []string{"large-target"}}
+	bin := []string{"v2", "top"}[c.Int(2)]
+	if c.Chance(1, 2) {
+		n := c.Range(130, 600)
+		x := c.Int(n / 3)
+		dup := n/2 + c.Int(n/2)
+		arr := &Val{K: 'a'}
+		for i := 0; i < n; i++ {
+			id := i
+			if i == dup {
+				id = x
+			}
+			o := &Val{K: 'o'}
+			o.set("id", vn(float64(id)))
+			o.set("v", vn(float64(i%7)))
+			arr.Elems = append(arr.Elems, o)
+		}
+		doc, path := arr, fmt.Sprintf(`[{"id":%d},"v"]`, x)
+		if c.Chance(1, 2) {
+			doc = &Val{K: 'o'}
+			doc.set("items", arr)
+			path = fmt.Sprintf(`["items",{"id":%d},"v"]`, x)
+		}
+		old := x % 7
+		if c.Chance(1, 4) {
+			old = 9 // the diff expects a value that is not there
+		}
+		cs.Files = []File{{"big.json", Blob(doc.JSON(0))}, {"p", Blob(fmt.Sprintf("@ %s\n- %d\n+ 99\n", path, old))}}
+		cs.Target = "big.json"
+		fl := []flagSpec{{"setkeys", "id", true, false}, {name: "p"}}
+		if c.Chance(1, 4) {
+			fl = []flagSpec{{name: "set"}, {name: "p"}}
+		}
+		cs.Procs = []ProcSpec{{Bin: bin, Argv: renderArgv(c, fl, []string{"p", "big.json"})}}
+	} else {
+		n := c.Range(260, 900)
+		bad := map[int]string{}
+		// what YAML accepts and jd's document model does not (keys that are
+		// not strings, numbers that are not finite), and one YAML itself refuses
+		kinds := []string{"{1: x}", "{true: y}", ".nan", "-.inf", "{2.5: z}", "{1: x}", "{[a, b]: c}"}
+		for i := 0; i < c.Range(1, 4); i++ {
+			bad[c.Int(n)] = kinds[c.Int(len(kinds))]
+		}
+		var sb strings.Builder
+		for i := 0; i < n; i++ {
+			if b, ok := bad[i]; ok {
+				sb.WriteString("- " + b + "\n")
+			} else {
+				fmt.Fprintf(&sb, "- %d\n", i%11)
+			}
+		}
+		cs.Files = []File{{"big.yaml", Blob(sb.String())}, {"small.yaml", Blob("- 1\n- 2\n")}, {"p", Blob("@ [0]\n- 0\n+ 5\n")}}
+		cs.Target = "big.yaml"
+		if c.Chance(1, 2) {
+			cs.Procs = []ProcSpec{{Bin: bin, Argv: renderArgv(c, []flagSpec{{name: "yaml"}, {name: "p"}}, []string{"p", "big.yaml"})}}
+		} else {
+			cs.Procs = []ProcSpec{{Bin: bin, Argv: renderArgv(c, []flagSpec{{name: "yaml"}}, []string{"big.yaml", "small.yaml"})}}
+		}
+	}
+	cs.Sched = c.U64()
+	return cs
+}
+
 func genCase13(c *Chooser) C13Case {
+	if c.Chance(1, 40) {
+		return genLarge13(c)
+	}
 	g := genCfg(c)
 	g.Big = c.Chance(1, 60)
 	iv := genInvocation(c)
